@@ -1,6 +1,6 @@
 (* C01 — property theorems only. *)
 From Coq Require Import ZArith List Bool String.
-From Verif Require Import C01.Model C01.Spec C01.Proofs C01.GenOk gen.Gen_C01.
+From Verif Require Import C01.Model C01.Spec C01.Proofs C01.GenOk gen.Gen_C01 C01.Bounds.
 Import ListNotations.
 
 (* (a) confinement.  For ANY tables, oracles and expression, every primitive
@@ -76,3 +76,20 @@ Theorem c01_steps_bounded :
   forall T O e, (snd (snd (run_eval T O e)) <= size e)%nat.
 Proof. exact steps_bounded_proof. Qed.
 Print Assumptions c01_steps_bounded.
+
+(* Resource bound, part 2 (part 1 is c01_steps_bounded): the size guards of the bounded primitives pow / mul /
+   factorial (fix a9a4a4e; their bodies and MAX_RESULT_BITS are template-matched by the translator) are sufficient:
+   whenever a guard lets the operation through, the integer result has at most [limit] bits, for every limit.
+   [bits] is int.bit_length of the absolute value. *)
+Theorem c01_size_guards_bound_results :
+  forall limit,
+    (forall a b, 0 < b -> bits a * b <= limit -> bits (a ^ b) <= limit) /\
+    (forall a b, bits a + bits b <= limit -> bits (a * b) <= limit) /\
+    (forall n, (1 < n)%nat -> Z.of_nat n * bits (Z.of_nat n) <= limit -> bits (fact_nat n) <= limit).
+Proof.
+  intro limit.
+  exact (conj (fun a b => bounded_pow_result_bits a b limit)
+        (conj (fun a b => bounded_mul_result_bits a b limit)
+              (fun n => bounded_factorial_result_bits n limit))).
+Qed.
+Print Assumptions c01_size_guards_bound_results.
